@@ -121,6 +121,14 @@ def ev(n, env, res):
     if t == 'skip':
         hide(n['body'], res)
         return []
+    if t == 'inspect':
+        # the handler expands the argument (in text mode) to look at it: undeclared names in it are used in text;
+        # the text itself is dropped
+        sub = Result()
+        sub.unknowns = res.unknowns
+        ev(n['body'], env, sub)
+        hide(n['body'], res)
+        return []
     if t == 'newcommand':
         m = n['m']
         env.macros[m['name']] = m
